@@ -89,29 +89,4 @@ theorem visibilityPub_content (c : Ctx) (cs : List Ch) (h : (cs.all fun ch => to
   have := List.all_eq_true.mp h ch hch
   simp [this]
 
-/-- one-element tuple: the comma is re-created in front of `)`; the comma token must carry no comment -/
-theorem oneTuple_content (c : Ctx) (cs : List Ch) (hch : ∀ ch ∈ cs, ChOk c ch)
-    (h : (cs.all fun ch => match ch.1 with
-        | .token ti _ => c.kind ti != .Comma || (tokItems c ti).isEmpty
-        | .node _ _ => true) = true) :
-    content c (cs.foldl (fun r ch =>
-      let k := tokKind c ch.1
-      if k == some .Comma then r
-      else if k == some .ParenEnd then r ++ txt "," ++ ch.2
-      else r ++ ch.2) nil) = chContent c cs := by
-  rw [fold_content c _ cs]; · simp
-  intro r ch hmem
-  have hk := List.all_eq_true.mp h ch hmem
-  have hok := hch ch hmem
-  obtain ⟨g, d⟩ := ch
-  cases g with
-  | token ti w =>
-    simp only [tokKind] at hk ⊢
-    by_cases hc : c.kind ti = .Comma
-    · have hd := chOk_token c _ d ti w rfl hok
-      simp [hc] at hk
-      simp [hc, hd, hk]
-    · by_cases hp : c.kind ti = .ParenEnd <;> simp [hc, hp]
-  | node k gs => simp [tokKind]
-
 end Mimium.CstPrint
